@@ -7,9 +7,7 @@ Local Open Scope list_scope.
 
 Theorem C17_reached :
   forall (notes : list (string * option string * list dblock)) (ops : list op) (s : gstate),
-         plain_notes notes ->
          distinct_keys notes ->
-         plain_ops ops ->
          reached notes ops s ->
          collectable (gs_graph s) = true /\
          (forall (key : string) (d : nat), squash (gs_graph s) key d = squash_spec (gs_graph s) key d) /\
@@ -21,9 +19,7 @@ Theorem C17_reached :
 Proof. exact Reachable.reached_C17. Qed.
 Check C17_reached :
   forall (notes : list (string * option string * list dblock)) (ops : list op) (s : gstate),
-         plain_notes notes ->
          distinct_keys notes ->
-         plain_ops ops ->
          reached notes ops s ->
          collectable (gs_graph s) = true /\
          (forall (key : string) (d : nat), squash (gs_graph s) key d = squash_spec (gs_graph s) key d) /\
